@@ -51,3 +51,24 @@ prop(
         'HplProperty.events() yields all four positions. Not decided: check_some_self_references (own-field check).'
     ),
 )
+
+prop(
+    'C16',
+    ['A1', 'A2', 'M1', 'M2', 'M3', 'M4', 'M5', 'M6'],
+    explanation=(
+        'Ownership/effect analysis. A1: all 36 AST / type-token / definition classes are @frozen with generated eq/hash and '
+        'define no __eq__/__hash__/__setattr__. A2: metadata is factory=dict, init=False, eq=False and no other AST field is '
+        'excluded from equality. M1 (who may write): every object.__setattr__/setattr/__dict__ site in the package is either '
+        'on self inside __attrs_post_init__ or the single narrowing write of _type_check under `force`; force=True is passed '
+        'only by attrs field validators, on the value being validated, at a fixed parameter type. M2: every call of a forcing '
+        'constructor (classes whose operand validators narrow the argument object in place: derived from the validators) in '
+        'rewrite.py / predicates.py / events.py / properties.py is checked by a may-provenance dataflow: an argument that '
+        'may be drawn from a child slot whose stored type is wider than the parameter type (set elements, function '
+        'arguments, ...) must be cast (copied) first. M3: but() returns self only after an identity (`is`) comparison of every '
+        'given value, otherwise evolve() + metadata entries copied into the new dict, never shared. M4: .metadata is mutated '
+        'only on objects constructed in the same function. M5: cast() returns self or self.but(data_type=self.data_type & t) '
+        'and never writes. M6: no copy/__new__/evolve/__dict__ in rewrite/parser/AST modules. Not decided: M2 for operands '
+        'of operator nodes re-wrapped under guards (listed as undecided sites), mutation of metadata by callers.'
+    ),
+    assumptions=['the _simplify* family and helper calls return fresh nodes or nodes already bounded by their own construction sites (assumed, see DESIGN M2 (g))'],
+)
